@@ -53,7 +53,12 @@ func (l *ConcurrentLimiter) Acquire(ctx context.Context) (err error) {
 		cancel()
 		return
 	}
-	l.tasks <- struct{}{}
+	select {
+	case <-ctx.Done():
+		// the caller has given up while it was queued: it takes no permit
+		err = ctx.Err()
+	case l.tasks <- struct{}{}:
+	}
 	return
 }
 
